@@ -177,7 +177,7 @@ def run(res, tier, seed, replay):
     repaired_model_fail = []
     seen_trees = set()
     constructs = {}
-    CONSTRUCT_KEYS = ["targets", "version", "named", "spread", "fill", "inferred", "isStatic\":true", "constructor",
+    CONSTRUCT_KEYS = ["targets", "version\":\"", "named", "spread", "fill", "inferred", "isStatic\":true", "constructor",
                       "asId\":{", "with\":[{", "namedAccess", "access", "nested", "rename", "interface", "world",
                       "resource", "variant", "record", "flags", "enum", "alias", "borrow", "tuple", "result", "option",
                       "list", "use", "include", "Import", "Let", "Export", "comment"]
